@@ -274,7 +274,10 @@ func runPrioReal(sc PrioRealScenario) *prioRealResult {
 				old := current[c.P]
 				addInput(ci.ch, c.P)
 				if old != nil {
-					old.takenAt.Store(old.written.Load() - int64(len(old.ch)))
+					// len first, counter second: the producer may still be filling the buffer, and
+					// "taken" must not be under-estimated (written only grows; +1 for its lag below)
+					n := int64(len(old.ch))
+					old.takenAt.Store(old.written.Load() - n)
 					old.removed.Store(true)
 					close(old.quit)
 				}
@@ -287,7 +290,8 @@ func runPrioReal(sc PrioRealScenario) *prioRealResult {
 					continue
 				}
 				removeInput(c.P)
-				current[c.P].takenAt.Store(current[c.P].written.Load() - int64(len(current[c.P].ch)))
+				n := int64(len(current[c.P].ch))
+				current[c.P].takenAt.Store(current[c.P].written.Load() - n)
 				current[c.P].removed.Store(true)
 				close(current[c.P].quit)
 				delete(current, c.P)
